@@ -111,6 +111,21 @@ CLAIMED["C14"] = sync_entry("call automaton per user-pool unit handle (create_un
                             "exactly-once execution under arbitrary pop policies and a user-defined scheduler",
                             "DESIGN.md section 5 (C14)")
 
+CLAIMED["C15"] = ("property-based testing (Hypothesis) with two generators: (a) API programs that create ULTs with "
+                  "generated stack sizes / user stacks at 8-byte offsets / memory-pool environment settings, use "
+                  "the promised stack depth and free from any actor, under the deterministic scheduler, ASan/LSan "
+                  "and real threads; (b) a white-box driver of ABTI_mem_pool (generated alloc / free / cross-pool "
+                  "free / local-pool destroy scripts on 1-4 threads over generated bucket, element, page and "
+                  "large-page settings) with an ownership registry and a conservation walk as oracle",
+                  "exploration",
+                  "Every generated case checks: stack range >= requested and usable (pattern write/verify down to "
+                  "the limit), no overlap between live stacks, allocator intact after free (glibc / ASan), LSan-clean "
+                  "finalize; pool driver: disjoint live blocks, grid/cache-line alignment, contents untouched, "
+                  "reachable blocks == carved blocks after all frees, pages released. Scripts under dsched include a "
+                  "scheduling point at the 128-bit CAS of the tagged-pointer LIFO. Finds violations with replayable "
+                  "cases; does not prove absence.",
+                  "DESIGN.md section 5 (C15)", DS_NOTE)
+
 NOT_BUILT = "check not built yet in this session (see DESIGN.md section 10 for the build order)"
 
 
